@@ -9,7 +9,8 @@
 //	F     ForgetSubscription of a registered id
 //	G     ForgetSubscription of an id that is not registered (a repeated Cancel)
 //	Rok   the server answers the outstanding PublishRequest with a keep-alive
-//	Rerr  … with a ServiceFault BadNoSubscription (publish() fails, the loop pauses itself)
+//	Rerr  … with a ServiceFault BadNoSubscription (publish() fails, the loop pauses itself);
+//	      only when nothing is registered.  Rlie: the same answer while a subscription is registered
 //	X     the server drops the connection (publish fails with EOF and Client.monitor
 //	      starts a reconnect round)
 //	Gt/Dl ForgetSubscription of an unknown id with a context deadline / the deadline passes
@@ -43,6 +44,7 @@ const (
 	sigSelfPause = "C27.self-pause-full"
 	sigForget    = "C27.forget-blocks-holding-submux"
 	sigStall     = "C27.pause-overtakes-resume"
+	sigNoSub     = "C27.badnosubscription-pauses-for-good"
 )
 
 type held struct {
@@ -78,6 +80,8 @@ type sys struct {
 	dlStarted  bool
 	// SubscriptionIDs() calls that did not return within a second
 	idsBlocked int
+	// the server answered BadNoSubscription while the client had a subscription registered
+	noSubWhileRegistered bool
 }
 
 const forgetDeadline = 1500 * time.Millisecond
@@ -332,6 +336,19 @@ func (y *sys) apply(op string) bool {
 		case <-time.After(time.Second):
 			y.idsBlocked++
 		}
+	case "Rlie":
+		// BadNoSubscription although a subscription is registered at the client (a late
+		// answer to a request the server processed while it had none, or a server at fault)
+		y.mu.Lock()
+		if len(y.held) == 0 || len(y.subs) == 0 || y.subStarted != y.subReturned {
+			y.mu.Unlock()
+			return false
+		}
+		hd := y.held[len(y.held)-1]
+		y.held = y.held[:len(y.held)-1]
+		y.noSubWhileRegistered = true
+		y.mu.Unlock()
+		hd.c.Reply(hd.reqID, xsubs.Fault(hd.req, ua.StatusBadNoSubscription))
 	case "Rok", "Rerr":
 		y.mu.Lock()
 		// BadNoSubscription is only sent when it is true (nothing registered, no
@@ -564,6 +581,9 @@ func (e *env) scenario(ops []string) (infra string, disagree *h.Disagreement, fa
 		// (a forget whose context deadline has passed must have returned: that one
 		// is not the recorded finding)
 		sig = sigForget
+	case y.noSubWhileRegistered && !y.sawBoth && post.loop == "paused" && post.pause == 0 && post.resume == 0 && post.mux == "free" && post.nsubs != "0" &&
+		post.subSend+post.subLock+post.fgWait+post.monPause == 0:
+		sig = sigNoSub
 	case y.sawBoth && post.loop == "paused" && post.pause == 0 && post.resume == 0 && post.mux == "free" && post.nsubs != "0" &&
 		post.subSend+post.subLock+post.fgWait+post.monPause == 0:
 		sig = sigStall
@@ -760,7 +780,7 @@ func main() {
 		}
 	}
 	pool := []string{"S", "S", "S", "F", "F", "F", "G", "G", "Rok", "Rok", "Rok", "Rerr", "Rerr", "X"}
-	for i := 0; i < o.N(12, 150) && r.InfraError == ""; i++ {
+	for i := 0; i < o.N(12, 110) && r.InfraError == ""; i++ {
 		n := 4 + e.rnd.Intn(6)
 		ops := []string{"S"}
 		usedX := false
@@ -776,7 +796,7 @@ func main() {
 		}
 		e.run(ops)
 	}
-	for _, b := range []string{"op:S", "op:F", "op:G", "op:Rok", "op:Rerr", "op:X", "op:Rign", "op:gate", "op:Gt", "op:Dl", "op:Rdata", "op:T", "op:I", "model-verdict:dead", "model-verdict:live", "oracle:progress"} {
+	for _, b := range []string{"op:S", "op:F", "op:G", "op:Rok", "op:Rerr", "op:X", "op:Rign", "op:gate", "op:Gt", "op:Dl", "op:Rdata", "op:T", "op:I", "op:Rlie", "model-verdict:dead", "model-verdict:live", "oracle:progress"} {
 		if r.Distribution[b] == 0 {
 			r.Unreached = append(r.Unreached, b)
 		}
